@@ -83,8 +83,7 @@ LogStart(t, sz, l) ==
                                    [k |-> "ts", t |-> t, now |-> now + 1]>>)
 
 \* second half: reserve + encode + commit, or refusal (dropping: return false; blocking: park in the retry sleep)
-TryEnqueue(t, act) ==
-  LET r == cur[t] IN
+TryEnqueue(t, act, r) ==
   IF Fits(t, r.sz)
   THEN /\ q' = [q EXCEPT ![t] = Append(@, r)] /\ wpos' = [wpos EXCEPT ![t] = @ + r.sz]
        /\ acc' = IF r.kind = "log" THEN acc \cup {r.id} ELSE acc
@@ -111,7 +110,7 @@ TryEnqueue(t, act) ==
 Enqueue(t) ==
   /\ UNCHANGED LgVars /\ UNCHANGED RmVars
   /\ fpc[t] = "ts"
-  /\ TryEnqueue(t, "enqueue")
+  /\ TryEnqueue(t, "enqueue", cur[t])
   /\ IF reg[t] THEN UNCHANGED <<reg, ctxs, newFlag>>
      ELSE reg' = [reg EXCEPT ![t] = TRUE] /\ ctxs' = Append(ctxs, t) /\ newFlag' = TRUE
   /\ UNCHANGED <<now, nlog, nflush, need, flag, rpos, rpub, valid, invalidCnt, cache, ring, bpc, bi, tsNow, batchMode,
@@ -120,8 +119,12 @@ Enqueue(t) ==
 Retry(t) ==
   /\ UNCHANGED LgVars /\ UNCHANGED RmVars
   /\ fpc[t] = "blocked"
-  /\ TryEnqueue(t, "retry")
-  /\ UNCHANGED <<now, nlog, nflush, need, flag, rpos, rpub, valid, reg, ctxs, newFlag, invalidCnt, cache, ring, bpc, bi, tsNow, batchMode,
+  \* a control request refused by a dropping queue is retried by a NEW call (flush_log's loop is outside log_statement):
+  \* the clock is read again; a blocking queue retries inside the call and keeps the first timestamp
+  /\ IF Dropping /\ cur[t].kind # "log"
+     THEN now < MaxTime /\ now' = now + 1 /\ TryEnqueue(t, "retry", [cur[t] EXCEPT !.ts = now + 1])
+     ELSE UNCHANGED now /\ TryEnqueue(t, "retry", cur[t])
+  /\ UNCHANGED <<nlog, nflush, need, flag, rpos, rpub, valid, reg, ctxs, newFlag, invalidCnt, cache, ring, bpc, bi, tsNow, batchMode,
                  lastIdle, flushWho, written, flushedTo, nid, reported, bad>>
 
 \* flush_log(): clock read + enqueue of the request (never dropped) up to the first sleep of a wait loop
@@ -439,6 +442,6 @@ StateView == <<now, fpc, cur, nlog, nflush, need, flag, q, wpos, rpos, rpub, fai
                cache, ring, bpc, bi, tsNow, batchMode, lastIdle, flushWho, written, flushedTo, rmWait, rmDone, lgValid, lgPresent, hasInval, acc,
                nid, dropped, reported, anyLate, bad>>
 ExportA == Export => PrintT("BEH " \o ToJson(hist'))
-\* simulation mode: one behaviour per simulated trace, printed when the trace reaches level 60 (tlc -simulate -depth 62)
-ExportSim == (Export /\ TLCGet("level") = 60) => PrintT("BEH " \o ToJson(hist'))
+\* simulation mode: one behaviour per simulated trace, printed when the trace reaches level 60 (tlc -simulate -depth 62) or its end
+ExportSim == (Export /\ (TLCGet("level") = 60 \/ ~(ENABLED Next)')) => PrintT("BEH " \o ToJson(hist'))
 =============================================================================
